@@ -13,6 +13,8 @@ use portmatching::{DetHeuristic, ManyMatcher, NaiveManyMatcher, PatternFallback,
 use std::sync::atomic::{AtomicUsize, Ordering};
 use std::sync::Arc;
 
+static DET_UNDER_DET: AtomicUsize = AtomicUsize::new(0);
+
 fn gen_big_set(rng: &mut Rng) -> Vec<Vec<CharVar>> {
     let np = rng.range(3, 18);
     let nlits = rng.range(1, 2);
@@ -36,7 +38,7 @@ fn hosts_for(rng: &mut Rng, pats: &[Vec<CharVar>]) -> Vec<String> {
 }
 
 /// true = suspicious
-fn examine(pats: &[Vec<CharVar>], heur: &Heur, hosts: &[String]) -> bool {
+fn examine(pats: &[Vec<CharVar>], heur: &Heur, hosts: &[String], exhaustive: bool) -> bool {
     let r = catch(|| {
         let patterns: Vec<StringPattern> = pats.iter().map(|p| StringPattern::new(p.clone())).collect();
         let (h, _) = heur.make();
@@ -57,6 +59,27 @@ fn examine(pats: &[Vec<CharVar>], heur: &Heur, hosts: &[String]) -> bool {
             Ok(n) => n,
             Err(_) => return true,
         };
+        // for one case in 50: compare with the naive matcher on EVERY host up to length 6 over
+        // {a, b, z} (1093 hosts), not only on the planted ones
+        let det_under_det = exhaustive;
+        let mut all_hosts: Vec<String> = hosts.to_vec();
+        if det_under_det {
+            DET_UNDER_DET.fetch_add(1, Ordering::Relaxed);
+            let mut layer = vec![String::new()];
+            for _ in 0..6 {
+                let mut next = vec![];
+                for s in &layer {
+                    for c in ['a', 'b', 'z'] {
+                        let mut t = s.clone();
+                        t.push(c);
+                        next.push(t);
+                    }
+                }
+                all_hosts.extend(next.iter().cloned());
+                layer = next;
+            }
+        }
+        let hosts = &all_hosts;
         for host in hosts {
             let mut a: Vec<(usize, String)> = m
                 .find_matches(host)
@@ -166,7 +189,7 @@ pub fn run(seed: u64, thorough: bool) {
                 };
                 let hosts = hosts_for(&mut rng, &pats);
                 cases.fetch_add(1, Ordering::Relaxed);
-                if examine(&pats, &heur, &hosts) {
+                if examine(&pats, &heur, &hosts, rng.chance(1, 50)) {
                     if hits.fetch_add(1, Ordering::Relaxed) < 20 {
                         // the full record, judged by the driver
                         string_case("E2E", &pats, &heur, &hosts);
@@ -191,8 +214,9 @@ pub fn run(seed: u64, thorough: bool) {
         let _ = h.join();
     }
     println!(
-        "HUNT S {} {} => ok",
+        "HUNT S {} {} {} => ok",
         cases.load(Ordering::Relaxed),
-        hits.load(Ordering::Relaxed)
+        hits.load(Ordering::Relaxed),
+        DET_UNDER_DET.load(Ordering::Relaxed)
     );
 }
